@@ -21,6 +21,46 @@ use std::collections::{BTreeMap, btree_map};
 use std::str;
 use std::sync::OnceLock;
 
+/// The value of an integer term as the requested primitive type. Integers outside the 32-bit
+/// encodings come back from the wire as big integers, so both representations are accepted.
+fn integer_term_as<T: TryFrom<i128>>(term: &OwnedTerm, type_name: &str) -> Result<T> {
+    let value: i128 = match term {
+        OwnedTerm::Integer(i) => *i as i128,
+        OwnedTerm::BigInt(big) => {
+            let significant = big
+                .digits
+                .iter()
+                .rposition(|&d| d != 0)
+                .map_or(0, |pos| pos + 1);
+            if significant > 8 {
+                return Err(Error::InvalidValue(format!(
+                    "big integer out of range for {}",
+                    type_name
+                )));
+            }
+            let magnitude = big.digits[..significant]
+                .iter()
+                .rev()
+                .fold(0u64, |acc, &digit| (acc << 8) | digit as u64)
+                as i128;
+            if big.sign.is_negative() {
+                -magnitude
+            } else {
+                magnitude
+            }
+        }
+        other => {
+            return Err(Error::TypeMismatch {
+                expected: "integer".into(),
+                found: format!("{:?}", other),
+            });
+        }
+    };
+    T::try_from(value).map_err(|_| {
+        Error::InvalidValue(format!("integer {} out of range for {}", value, type_name))
+    })
+}
+
 pub fn from_bytes<T: for<'a> Deserialize<'a>>(bytes: &[u8]) -> Result<T> {
     let term = erltf::decode(bytes).map_err(|e| Error::Erltf(e.into()))?;
     from_term(&term)
@@ -121,103 +161,35 @@ impl<'de> SerdeDeserializer<'de> for &mut Deserializer<'de> {
     }
 
     fn deserialize_i8<V: Visitor<'de>>(self, visitor: V) -> Result<V::Value> {
-        match self.term {
-            OwnedTerm::Integer(i) => i8::try_from(*i)
-                .map_err(|_| Error::InvalidValue(format!("integer {} out of range for i8", i)))
-                .and_then(|v| visitor.visit_i8(v)),
-            _ => Err(Error::TypeMismatch {
-                expected: "integer".into(),
-                found: format!("{:?}", self.term),
-            }),
-        }
+        visitor.visit_i8(integer_term_as(self.term, "i8")?)
     }
 
     fn deserialize_i16<V: Visitor<'de>>(self, visitor: V) -> Result<V::Value> {
-        match self.term {
-            OwnedTerm::Integer(i) => i16::try_from(*i)
-                .map_err(|_| Error::InvalidValue(format!("integer {} out of range for i16", i)))
-                .and_then(|v| visitor.visit_i16(v)),
-            _ => Err(Error::TypeMismatch {
-                expected: "integer".into(),
-                found: format!("{:?}", self.term),
-            }),
-        }
+        visitor.visit_i16(integer_term_as(self.term, "i16")?)
     }
 
     fn deserialize_i32<V: Visitor<'de>>(self, visitor: V) -> Result<V::Value> {
-        match self.term {
-            OwnedTerm::Integer(i) => i32::try_from(*i)
-                .map_err(|_| Error::InvalidValue(format!("integer {} out of range for i32", i)))
-                .and_then(|v| visitor.visit_i32(v)),
-            _ => Err(Error::TypeMismatch {
-                expected: "integer".into(),
-                found: format!("{:?}", self.term),
-            }),
-        }
+        visitor.visit_i32(integer_term_as(self.term, "i32")?)
     }
 
     fn deserialize_i64<V: Visitor<'de>>(self, visitor: V) -> Result<V::Value> {
-        match self.term {
-            OwnedTerm::Integer(i) => visitor.visit_i64(*i),
-            _ => Err(Error::TypeMismatch {
-                expected: "integer".into(),
-                found: format!("{:?}", self.term),
-            }),
-        }
+        visitor.visit_i64(integer_term_as(self.term, "i64")?)
     }
 
     fn deserialize_u8<V: Visitor<'de>>(self, visitor: V) -> Result<V::Value> {
-        match self.term {
-            OwnedTerm::Integer(i) => u8::try_from(*i)
-                .map_err(|_| Error::InvalidValue(format!("integer {} out of range for u8", i)))
-                .and_then(|v| visitor.visit_u8(v)),
-            _ => Err(Error::TypeMismatch {
-                expected: "integer".into(),
-                found: format!("{:?}", self.term),
-            }),
-        }
+        visitor.visit_u8(integer_term_as(self.term, "u8")?)
     }
 
     fn deserialize_u16<V: Visitor<'de>>(self, visitor: V) -> Result<V::Value> {
-        match self.term {
-            OwnedTerm::Integer(i) => u16::try_from(*i)
-                .map_err(|_| Error::InvalidValue(format!("integer {} out of range for u16", i)))
-                .and_then(|v| visitor.visit_u16(v)),
-            _ => Err(Error::TypeMismatch {
-                expected: "integer".into(),
-                found: format!("{:?}", self.term),
-            }),
-        }
+        visitor.visit_u16(integer_term_as(self.term, "u16")?)
     }
 
     fn deserialize_u32<V: Visitor<'de>>(self, visitor: V) -> Result<V::Value> {
-        match self.term {
-            OwnedTerm::Integer(i) => u32::try_from(*i)
-                .map_err(|_| Error::InvalidValue(format!("integer {} out of range for u32", i)))
-                .and_then(|v| visitor.visit_u32(v)),
-            _ => Err(Error::TypeMismatch {
-                expected: "integer".into(),
-                found: format!("{:?}", self.term),
-            }),
-        }
+        visitor.visit_u32(integer_term_as(self.term, "u32")?)
     }
 
     fn deserialize_u64<V: Visitor<'de>>(self, visitor: V) -> Result<V::Value> {
-        match self.term {
-            OwnedTerm::Integer(i) => u64::try_from(*i)
-                .map_err(|_| Error::InvalidValue(format!("integer {} out of range for u64", i)))
-                .and_then(|v| visitor.visit_u64(v)),
-            OwnedTerm::BigInt(big) if big.sign.is_positive() && big.digits.len() <= 8 => {
-                let mut bytes = [0u8; 8];
-                bytes[..big.digits.len()].copy_from_slice(&big.digits);
-                let value = u64::from_le_bytes(bytes);
-                visitor.visit_u64(value)
-            }
-            _ => Err(Error::TypeMismatch {
-                expected: "integer or unsigned bigint".into(),
-                found: format!("{:?}", self.term),
-            }),
-        }
+        visitor.visit_u64(integer_term_as(self.term, "u64")?)
     }
 
     fn deserialize_f32<V: Visitor<'de>>(self, visitor: V) -> Result<V::Value> {
